@@ -38,6 +38,19 @@ pub(crate) struct StateDescriptor {
     prev_state: Option<CallResult>,
 }
 
+/// A stored result can be checked only against a call whose arguments are resolved; an honest peer never
+/// stores a result for a call it could not resolve, so such data is refused instead of trusted.
+fn resolved_argument_hash<'hash>(
+    argument_hash: Option<&'hash Rc<str>>,
+    stored: &str,
+) -> Result<&'hash Rc<str>, UncatchableError> {
+    argument_hash.ok_or_else(|| UncatchableError::InstructionParametersMismatch {
+        param: "call argument_hash",
+        expected_value: "<the arguments of the call are not resolved>".to_owned(),
+        stored_value: stored.to_owned(),
+    })
+}
+
 /// This function looks at the existing call state, validates it,
 /// and returns Ok(true) if the call should be executed further.
 pub(super) fn handle_prev_state<'i>(
@@ -63,8 +76,9 @@ pub(super) fn handle_prev_state<'i>(
                 .resolve_service_info(failed_cid)
                 .map_err(UncatchableError::from)?;
 
+            let argument_hash = resolved_argument_hash(argument_hash, &service_result_aggregate.argument_hash)?;
             verifier::verify_call(
-                argument_hash.as_ref().unwrap(),
+                argument_hash,
                 tetraplet,
                 &service_result_aggregate.argument_hash,
                 &current_tetraplet,
@@ -92,9 +106,12 @@ pub(super) fn handle_prev_state<'i>(
             let call_id = call_id.to_string();
             match exec_ctx.call_results.remove(&call_id) {
                 Some(call_result) => {
+                    // a request is handed out only for a call whose arguments are resolved; a pending request on a
+                    // call that cannot be resolved can only come from tampered data
+                    let argument_hash = resolved_argument_hash(argument_hash, &format!("{:?}", met_result.result))?;
                     update_state_with_service_result(
                         tetraplet.clone(),
-                        argument_hash.expect("Result for joinable error").clone(),
+                        argument_hash.clone(),
                         output,
                         call_result,
                         exec_ctx,
@@ -123,9 +140,10 @@ pub(super) fn handle_prev_state<'i>(
         Executed(value) => {
             use air_interpreter_data::ValueRef;
 
+            let argument_hash = resolved_argument_hash(argument_hash, &format!("{value:?}"))?;
             populate_context_from_data(
                 value.clone(),
-                argument_hash.as_ref().unwrap(),
+                argument_hash,
                 tetraplet.clone(),
                 met_result.trace_pos,
                 met_result.source,
